@@ -426,4 +426,4 @@ def run(tier, seed, replay=None):
             rep.write_evidence(extra, 0, inconclusive=True)
             print('INCONCLUSIVE property=C20 a sanitizer pass did not run: %s' % '; '.join(inconcl)[:500])
             return 2
-    return rep.finish(FLOORS, extra)
+    return rep.finish(None if replay else FLOORS, extra)   # a replay re-runs a handful of cases: no floors
